@@ -66,13 +66,31 @@ wrap_line = partial(wrap_line_base, pad_func=pad_fortran)
 
 # {{{ name manager
 
+def _make_fortran_name_generator():
+    from pytools import UniqueNameGenerator
+
+    class CaseInsensitiveUniqueNameGenerator(UniqueNameGenerator):
+        """Fortran identifiers that differ only in letter case are the same."""
+
+        def __init__(self):
+            super().__init__()
+            self._lowercase_names = set()
+
+        def is_name_conflicting(self, name):
+            return name.lower() in self._lowercase_names
+
+        def _name_added(self, name):
+            self._lowercase_names.add(name.lower())
+
+    return CaseInsensitiveUniqueNameGenerator()
+
+
 class FortranNameManager:
     """Maps names that appear in intermediate code to Fortran identifiers.
     """
 
     def __init__(self):
-        from pytools import UniqueNameGenerator
-        self.name_generator = UniqueNameGenerator()
+        self.name_generator = _make_fortran_name_generator()
         self.local_map = KeyToUniqueNameMap(name_generator=self.name_generator)
         self.global_map = KeyToUniqueNameMap(start={
                 "<t>": "dagrt_t", "<dt>": "dagrt_dt"},
